@@ -42,6 +42,7 @@ FAMILIES['C04'] = [
     fam('waite-interrupt-between', ['WAITE HOLD', 'HOLD INTR0'], PRIOSYM=1, w=3),
     fam('acquire-timeout-vs-grant', ['ACQ HOLD REL', 'TADD ACQ HOLD REL', 'ACQ HOLD REL'], w=3),
     fam('cond-timeout-vs-signal', ['TADD CWAIT HOLD', 'HOLD CSET CSIG', 'CWAIT'], w=3),
+    fam('cond-timeout-vs-signal-prio', ['TADD CWAIT HOLD', 'HOLD CSET CSIG', 'CWAIT'], PRIOS='{0,1,0}', w=3),
     fam('yield-resume', ['YIELD HOLD', 'HOLD RESUME0 HOLD']),
     fam('bufget-timeout', ['TADD BGET HOLD', 'HOLD BPUT'], w=4),
     fam('poolacq-timeout', ['PACQ HOLD PRELALL', 'TADD PACQ HOLD'], w=4),
@@ -77,6 +78,8 @@ FAMILIES['C06'] = [
     fam('resource-3-waiters', ['ACQ HOLD REL', 'HOLD ACQ REL', 'HOLD ACQ REL', 'HOLD ACQ REL'], tier='thorough', PRIOSYM=1, w=60),
     fam('resource-2-waiters', ['ACQ HOLD REL', 'HOLD ACQ REL', 'HOLD ACQ REL'], PRIOSYM=1, witness=True, w=8),
     fam('resource-prio-change', ['ACQ HOLD REL', 'ACQ REL', 'ACQ REL', 'HOLD PRIO1 PRIO2'], PRIOSYM=1, w=6),
+    fam('resource-reprio-nonfront', ['ACQ HOLD PRIO3 HOLD REL', 'HOLD ACQ REL', 'HOLD ACQ REL', 'HOLD ACQ REL'], PRIOS='{0,10,5,1}', DUR0='{4,2}', DUR1='{1}', DUR2='{2}', DUR3='{3}', w=3),
+    fam('resource-reprio-nonfront-2', ['ACQ HOLD PRIO2 HOLD REL', 'HOLD ACQ REL', 'HOLD ACQ REL', 'HOLD ACQ REL'], PRIOS='{0,7,3,7}', DUR0='{4,2}', DUR1='{1}', DUR2='{2}', DUR3='{3}', w=3),
     fam('resource-waiter-leaves', ['ACQ HOLD REL', 'TADD ACQ REL', 'ACQ REL', 'ACQ REL'], PRIOSYM=1, w=8),
     fam('oq-getters', ['HOLD OPUT OPUT', 'OGET', 'OGET', 'HOLD OGET'], PRIOSYM=1, w=6),
     fam('oq-putters', ['OPUT OPUT', 'HOLD OPUT', 'HOLD HOLD OGET OGET'], PRIOSYM=1, QCAP=1, w=8),
@@ -155,6 +158,8 @@ FAMILIES['C11'] = [
     fam('buffer-put-stopped', ['BPUT BPUT HOLD', 'HOLD STOP0', 'WAITP0 BGET'], BUFCAP=2, w=4),
     fam('buffer-full-range-2', ['BPUT', 'BGET'], BUFCAP=3, BAMT_FULL=1, w=12),
     fam('buffer-full-range-2t', ['BPUT HOLD', 'TADD BGET'], tier='thorough', BUFCAP=3, BAMT_FULL=1, w=60),
+    fam('buffer-full-range-put-put', ['BPUT TADD BPUT'], BUFCAP=3, BAMT_FULL=1, w=12),
+    fam('buffer-full-range-unlimited-put-put', ['BPUT TADD BPUT'], BUFCAP=-1, BAMT_FULL=1, w=8),
     fam('buffer-full-range-unlimited', ['BPUT BPUT', 'BGET'], BUFCAP=-1, BAMT_FULL=1, w=12, opts={}),
     fam('buffer-full-range-3', ['BPUT HOLD BPUT', 'TADD BGET', 'BGET'], tier='thorough', BUFCAP=0, BAMT_FULL=1, w=60),
     fam('buffer-4', ['BPUT HOLD BPUT', 'BPUT', 'TADD BGET HOLD BGET', 'BGET'], tier='thorough', BUFCAP=0, w=60),
@@ -167,7 +172,12 @@ FAMILIES['C12'] = [
     fam('oq-unlimited', ['OPUT OPUT OPUT', 'OGET HOLD OGET', 'TADD OGET'], QCAP=-1, w=3),
     fam('oq-consumer-interrupted', ['HOLD OPUT', 'OGET', 'OGET', 'HOLD INTR1'], QCAP=2, w=4),
     fam('oq-producer-stopped', ['OPUT OPUT OPUT', 'HOLD STOP0', 'HOLD OGET OGET'], QCAP=1, w=4),
+    fam('oq-get-then-put-same-instant', ['OPUT OPUT', 'HOLD OGET OPUT HOLD OGET OGET'], QCAP=1, w=2),
+    fam('oq-two-producers-same-instant', ['OPUT OPUT HOLD', 'HOLD OGET', 'HOLD OPUT', 'HOLD HOLD OGET OGET OGET'], QCAP=1, w=4),
+    fam('pq-get-then-put-same-instant', ['QPUT QPUT', 'HOLD QGET QPUT HOLD QGET QGET'], QCAP=1, w=3),
     fam('pq-order', ['QPUT QPUT QPUT HOLD', 'HOLD QGET QGET QGET'], QCAP=-1, w=6),
+    fam('pq-reprio-later-puts', ['HOLD QPUT QPUT QPUT QREPRIO', 'HOLD HOLD QGET QGET QGET'], QCAP=-1, w=8),
+    fam('pq-reprio-spread-puts', ['QPUT HOLD QPUT HOLD QPUT QREPRIO', 'HOLD HOLD HOLD QGET QGET QGET'], QCAP=-1, w=8),
     fam('pq-reprio-cancel', ['QPUT QPUT QPUT QREPRIO QCANCEL', 'HOLD QGET QGET'], QCAP=-1, w=8),
     fam('pq-both-ends', ['QPUT QPUT QPUT HOLD', 'HOLD QGET QGET', 'TADD QGET QCANCEL'], QCAP=2, w=4),
     fam('pq-cancel-wakes-putter', ['QPUT QPUT HOLD', 'HOLD QCANCEL', 'HOLD QPUT QGET'], QCAP=1, w=3),
@@ -181,11 +191,15 @@ FAMILIES['C13'] = [
     fam('cond-three-waiters', ['CWAIT', 'CWAIT', 'CWAIT', 'HOLD CSET CSIG CSET CSIG'], w=6),
     fam('cond-cancel-remove', ['TADD CWAIT HOLD', 'CWAIT', 'HOLD CSET CSIG CCANCEL1 CREMOVE0'], w=4),
     fam('cond-timeout-vs-signal', ['TADD CWAIT HOLD', 'HOLD CSET CSIG', 'CWAIT'], w=3),
+    fam('cond-timeout-vs-signal-prio', ['TADD CWAIT HOLD', 'HOLD CSET CSIG', 'CWAIT'], PRIOS='{0,1,0}', w=3),
+    fam('cond-timeout-vs-signal-symprio', ['TADD CWAIT HOLD HOLD', 'HOLD CSET CSIG'], PRIOSYM=1, w=4),
     fam('cond-waiter-interrupted', ['CWAIT HOLD', 'CWAIT', 'HOLD INTR0 CSET CSIG'], PRIOSYM=1, w=4),
     fam('cond-observe-register-1', ['ACQ HOLD REL', 'CWAIT HOLD'], OBSERVE=1),
     fam('cond-observe-subscribe-1', ['ACQ HOLD REL', 'CWAIT HOLD'], OBSERVE=2),
     fam('cond-observe-register-2', ['ACQ HOLD REL', 'CWAIT HOLD', 'CWAIT'], OBSERVE=1),
     fam('cond-observe-subscribe-2', ['ACQ HOLD REL', 'CWAIT HOLD', 'TADD CWAIT'], OBSERVE=2),
+    fam('cond-observe-with-resource-waiter', ['ACQ HOLD REL', 'ACQ HOLD REL', 'CWAIT HOLD'], OBSERVE=1, w=2),
+    fam('cond-observe-subscribe-with-resource-waiter', ['ACQ HOLD REL', 'HOLD ACQ REL', 'CWAIT'], OBSERVE=2, w=2),
     fam('cond-observe-stop-holder', ['ACQ HOLD', 'CWAIT HOLD', 'HOLD STOP0'], OBSERVE=1),
     fam('cond-four', ['CWAIT HOLD CWAIT', 'CWAIT', 'TADD CWAIT', 'HOLD CSET CSIG HOLD CSET CSIG'], tier='thorough', PRIOSYM=1, w=50),
 ]
@@ -197,6 +211,7 @@ FAMILIES['C14'] = [
     fam('rec-symbolic-times', ['ACQ PACQ HOLD REL PRELALL', 'HOLD PACQ ACQ HOLD', 'HOLD STOP1'], REC=1, w=4),
     fam('rec-preempt', ['ACQ PACQ HOLD', 'HOLD PREEMPT PPRE HOLD REL PRELALL'], REC=1, PRIOS='{0,1}', w=3),
     fam('rec-pool-rollback', ['PACQ HOLD PRELALL', 'PACQ HOLD', 'HOLD INTR1'], REC=1, POOLCAP=3, w=5),
+    fam('rec-pool-rollback-topup', ['PACQ PACQ HOLD', 'PACQ HOLD', 'HOLD INTR0 HOLD'], REC=1, POOLCAP=3, w=10),
     fam('rec-drop-on-stop', ['ACQ PACQ HOLD', 'HOLD STOP0', 'HOLD ACQ PACQ HOLD'], REC=1, CONCRETE_D=1, w=4),
     fam('rec-buffer-partial', ['BPUT HOLD BPUT', 'TADD BGET BGET'], REC=1, BUFCAP=2, CONCRETE_D=1, BAMT_FULL=2, w=8),
     fam('rec-same-instant', ['ACQ REL ACQ REL PACQ PRELALL', 'HOLDZ OPUT OGET QPUT QGET'], REC=1, CONCRETE_D=1, w=2),
